@@ -1145,7 +1145,7 @@ class Hyperplane(Subspace):
         #numpy's eig expects a matrix operating on the left
         evals, evecs = np.linalg.eig(matrix)
 
-        dimension = reflection.dimension
+        dimension = matrix.shape[-1] - 1
 
         #we expect a reflection to have eigenvalues [-1, 1, ...]
         expected_evals = np.ones(dimension + 1)
